@@ -269,7 +269,11 @@ do_set(Ctx& x, const VhTok& t)
     p.offset.y = ((t.d >> 4) & 0xf) * 5;
     static const float exps[8] = { 0.f, 500.f, 2000.f, 5000.f, 10000.f, 20000.f, 50000.f, 1000.f };
     p.exposure_time_us = exps[(t.d >> 8) & 7];
-    p.input_triggers.frame_start.enable = (t.d >> 11) & 1;
+    {
+        // "enabled" is any non-zero value of the uint8_t field, not just 1
+        static const uint8_t truthy[4] = { 1, 2, 0x80, 0xfe };
+        p.input_triggers.frame_start.enable = ((t.d >> 11) & 1) ? truthy[(t.c >> 9) & 3] : 0;
+    }
     p.line_interval_us = 1.5f;
     uint8_t asked_binning = p.binning;
     x.c.trace("B: SET binning=%u type=%s shape=(%u,%u) offset=(%u,%u) exposure=%gus trigger=%u", p.binning, sample_type_as_string(p.pixel_type), p.shape.x,
@@ -286,9 +290,11 @@ do_set(Ctx& x, const VhTok& t)
         // real caller does after a refused configuration; nothing is started in between.
         x.c.cls(CL_SET_ALLOC_FAIL);
         x.c.nontrivial(0);
-        x.c.trace("    -> %s (injected allocation failure); the same SET again", r == Device_Ok ? "Ok" : "refused");
-        p = asked;
-        r = camera_set(x.cam, &p);
+        x.c.trace("    -> %s (injected allocation failure)%s", r == Device_Ok ? "Ok" : "refused", r == Device_Ok ? "" : "; the same SET again");
+        if (r != Device_Ok) { // (a set that reports Ok despite the failure is taken at its word: the camera is used as configured)
+            p = asked;
+            r = camera_set(x.cam, &p);
+        }
     }
     uint8_t eff = asked_binning ? asked_binning : 1; // the HAL turns 0 into 1
     bool pow2 = (eff & (eff - 1)) == 0;
